@@ -356,6 +356,19 @@ def build(P):
             "TYPE T = (P, Q)\nDECLARE t : T\nDECLARE r : REAL\nt <- Q\nr <- 1\nOUTPUT t, \" \", r\nDECLARE c : CHAR\nc <- \"x\"\nOUTPUT c",
             "DECLARE d : DATE\nd <- 1/2/2003\nOUTPUT DAY(d), MONTH(d), YEAR(d)\nDECLARE s : STRING\ns <- 'c'\nOUTPUT s & \"!\"",
         ]
+        # every expression position of a writing statement holds a call with a visible side effect (OUTPUT + a global counter): each is evaluated
+        # exactly once with and without the option (target indices of <-, INPUT, READFILE; values; 2-D and record-array targets; BYREF arguments)
+        tick = "DECLARE Count : INTEGER\nCount <- 0\nFUNCTION Tick() RETURNS INTEGER\nCount <- Count + 1\nOUTPUT \"tick \", Count\nRETURN Count\nENDFUNCTION\n"
+        forms += [
+            tick + "DECLARE a : ARRAY[1:6] OF INTEGER\na[Tick()] <- 10\na[Tick()] <- 20\na[Tick() + 1] <- Tick()\nOUTPUT Count\nFOR i <- 1 TO 6\nOUTPUT a[i]\nNEXT i",
+            tick + "DECLARE m : ARRAY[1:4, 1:4] OF INTEGER\nm[Tick(), Tick()] <- 7\nm[Tick(), 1] <- m[1, Tick() - 2]\nOUTPUT Count, \" \", m[1, 2], \" \", m[3, 1]",
+            tick + "TYPE R\nDECLARE f : INTEGER\nDECLARE g : ARRAY[1:5] OF INTEGER\nENDTYPE\nDECLARE rs : ARRAY[1:5] OF R\nrs[Tick()].f <- 3\nrs[Tick()].g[Tick()] <- 4\nOUTPUT Count, \" \", rs[1].f, \" \", rs[2].g[3]",
+            tick + "DECLARE a : ARRAY[1:6] OF INTEGER\nDECLARE s : ARRAY[1:6] OF STRING\nINPUT a[Tick()]\nINPUT s[Tick()]\nOUTPUT Count, \" \", a[1], \" \", s[2]",
+            tick + "DECLARE s : ARRAY[1:6] OF STRING\nOPENFILE \"ph.txt\" FOR WRITE\nWRITEFILE \"ph.txt\", Tick()\nCLOSEFILE \"ph.txt\"\nOPENFILE \"ph.txt\" FOR READ\nREADFILE \"ph.txt\", s[Tick()]\nCLOSEFILE \"ph.txt\"\nOUTPUT Count, \" \", s[2]",
+            tick + "DECLARE a : ARRAY[1:6] OF INTEGER\nPROCEDURE Set(BYREF x : INTEGER, v : INTEGER)\nx <- v\nENDPROCEDURE\nCALL Set(a[Tick()], Tick())\nCALL Set(a[Tick()], 9)\nOUTPUT Count, \" \", a[1], \" \", a[3]",
+            tick + "TYPE PI = ^INTEGER\nDECLARE a : ARRAY[1:6] OF INTEGER\nDECLARE p : PI\np <- ^a[Tick()]\np^ <- Tick()\nOUTPUT Count, \" \", a[1]",
+            tick + "DECLARE x : INTEGER\nx <- Tick()\nIF Tick() = 2 THEN\nx <- x + Tick()\nENDIF\nWHILE Tick() < 6 DO\nx <- x + 1\nENDWHILE\nFOR j <- Tick() TO Tick() STEP Tick() - 8\nx <- x + j\nNEXT j\nCASE OF Tick()\n10 : x <- x + 100\nOTHERWISE : x <- 0\nENDCASE\nOUTPUT Count, \" \", x",
+        ]
         fcs = []
         for fi, prog_text in enumerate(forms):
             for flag in (False, "-p", "--pedantic"):
